@@ -167,40 +167,42 @@ impl core::convert::From<IoError> for anyhow::Error {
     fn from(e: IoError) -> anyhow::Error { unimplemented!() }
 }
 /// lru_time_cache::LruCache as the association table: a finite map; entries may expire (disappear) between any two operations
-impl<V> LruCache<u64, V> {
+pub type AssocKey = (u64, Option<SocketAddr>);
+impl<V> LruCache<AssocKey, V> {
     #[verifier::external_body]
-    fn iter(&mut self) ensures forall|k: u64| final(self).m().contains_key(k) ==> old(self).m().contains_key(k) && #[trigger] final(self).m()[k] == old(self).m()[k] { unimplemented!() }
+    fn iter(&mut self) ensures forall|k: AssocKey| final(self).m().contains_key(k) ==> old(self).m().contains_key(k) && #[trigger] final(self).m()[k] == old(self).m()[k] { unimplemented!() }
     #[verifier::external_body]
-    fn get(&mut self, k: &u64) -> (r: Option<&V>)
-        ensures forall|j: u64| final(self).m().contains_key(j) ==> old(self).m().contains_key(j) && #[trigger] final(self).m()[j] == old(self).m()[j],
+    fn get(&mut self, k: &AssocKey) -> (r: Option<&V>)
+        ensures forall|j: AssocKey| final(self).m().contains_key(j) ==> old(self).m().contains_key(j) && #[trigger] final(self).m()[j] == old(self).m()[j],
             r matches Some(v) ==> final(self).m().contains_key(*k) && final(self).m()[*k] == *v,
             r is None ==> !final(self).m().contains_key(*k),
     { unimplemented!() }
     #[verifier::external_body]
-    fn get_mut(&mut self, k: &u64) -> (r: Option<&V>)
-        ensures forall|j: u64| final(self).m().contains_key(j) ==> old(self).m().contains_key(j) && #[trigger] final(self).m()[j] == old(self).m()[j],
+    fn get_mut(&mut self, k: &AssocKey) -> (r: Option<&V>)
+        ensures forall|j: AssocKey| final(self).m().contains_key(j) ==> old(self).m().contains_key(j) && #[trigger] final(self).m()[j] == old(self).m()[j],
             r matches Some(v) ==> final(self).m().contains_key(*k) && final(self).m()[*k] == *v,
             r is None ==> !final(self).m().contains_key(*k),
     { unimplemented!() }
     #[verifier::external_body]
-    fn remove(&mut self, k: &u64) -> (r: Option<V>)
-        ensures forall|j: u64| final(self).m().contains_key(j) ==> j != *k && old(self).m().contains_key(j) && #[trigger] final(self).m()[j] == old(self).m()[j],
+    fn remove(&mut self, k: &AssocKey) -> (r: Option<V>)
+        ensures forall|j: AssocKey| final(self).m().contains_key(j) ==> j != *k && old(self).m().contains_key(j) && #[trigger] final(self).m()[j] == old(self).m()[j],
     { unimplemented!() }
     #[verifier::external_body]
-    fn insert(&mut self, k: u64, v: V) -> (r: Option<V>)
-        ensures forall|j: u64| final(self).m().contains_key(j) ==> (j == k && #[trigger] final(self).m()[j] == v) || (j != k && old(self).m().contains_key(j) && final(self).m()[j] == old(self).m()[j]),
+    fn insert(&mut self, k: AssocKey, v: V) -> (r: Option<V>)
+        ensures forall|j: AssocKey| final(self).m().contains_key(j) ==> (j == k && #[trigger] final(self).m()[j] == v) || (j != k && old(self).m().contains_key(j) && final(self).m()[j] == old(self).m()[j]),
     { unimplemented!() }
 }
 impl<const N: usize> UdpAssociate<N> {
-    /// the client session an association was created for
+    /// the client session an association was created for, and the address of the client that opened it (where its replies go)
     uninterp spec fn sid(&self) -> u64;
+    uninterp spec fn addr(&self) -> SocketAddr;
 }
 impl<const N: usize> UdpAssociateContext<N> {
     /// server/shadowsocks.rs UdpAssociateContext::create (async: binds a socket, spawns the relay task): NOT verified; the association it hands back is the one of
     /// the session it was given (the task starts with a fresh replay window and no user: the preconditions of relay)
     #[verifier::external_body]
     fn create(client_session: &udp__Session<N>, client_addr: SocketAddr, inbound: Sender<(BytesMut, Address, SocketAddr, udp__Session<N>)>) -> (r: anyhow::Result<UdpAssociate<N>>)
-        ensures r matches Ok(a) ==> a.sid() == client_session.client_session_id,
+        ensures r matches Ok(a) ==> a.sid() == client_session.client_session_id && a.addr() == client_addr,
     { unimplemented!() }
 }
 /// server/shadowsocks.rs `impl From<&ServerContext<N>> for PayloadCodec<N>` (= PayloadCodec::new(context, Mode::Server, None)): assumed stub - a trait impl cannot
@@ -229,7 +231,12 @@ impl<const N: usize> ServerUserManager<N> {
     fn add_user(&mut self, user: ServerUser<N>) { unimplemented!() }
 }
 /// every entry of the association table serves the session it is filed under
-spec fn table_ok<const N: usize>(t: LruCache<u64, UdpAssociate<N>>) -> bool { forall|k: u64| t.m().contains_key(k) ==> (#[trigger] t.m()[k]).sid() == k }
+/// .. and, where clients are told apart by address (the original AEAD ciphers: no session id on the wire), the client address it is filed under
+spec fn table_ok<const N: usize>(t: LruCache<AssocKey, UdpAssociate<N>>) -> bool {
+    forall|k: AssocKey| t.m().contains_key(k) ==> (#[trigger] t.m()[k]).sid() == k.0 && (k.1 matches Some(a) ==> t.m()[k].addr() == a)
+}
+/// bool::then_some
+pub assume_specification<T>[ bool::then_some ](b: bool, t: T) -> (r: Option<T>) ensures r == (if b { Some(t) } else { None });
 
 //@@ octo-squirrel-server/src/server/shadowsocks.rs:172-175  struct UdpAssociate  sha=9a4a81ec24ed2a1c
 struct UdpAssociate<const N: usize> {
@@ -298,12 +305,14 @@ fn startup_udp<const N: usize>(config: &ServerConfig<SslConfig>, user_manager: &
         let inbound = UdpSocket::bind(verif_string())?;
         let (tx, mut rx) = mpsc::channel::<(BytesMut, Address, SocketAddr, udp__Session<N>)>(1024);
         let ttl = Duration::from_secs(300);
-        let mut net_map: LruCache<u64, UdpAssociate<N>> = LruCache::with_expiry_duration_and_capacity(ttl, 10240);
+        // a 2022 session is named by its client session id; the original AEAD ciphers carry no session id on the wire: there a client is its address
+        let by_address = !config.cipher.is_aead_2022();
+        let mut net_map: LruCache<(u64, Option<SocketAddr>), UdpAssociate<N>> = LruCache::with_expiry_duration_and_capacity(ttl, 10240);
         let mut cleanup_timer = time::interval(ttl);
         /*R2*/
         let mut buf = [0; 0x10000];
         loop
-            invariant table_ok(net_map), codec.wf(), codec.context.stream_type is Server,
+            invariant table_ok(net_map), codec.wf(), codec.context.stream_type is Server, by_address == !config.cipher.is_2022(),
         {
             match verif_select(3) {
                 0 => { let _ = cleanup_timer.tick(); {
@@ -312,7 +321,7 @@ fn startup_udp<const N: usize>(config: &ServerConfig<SslConfig>, user_manager: &
                 // p_s_c
                 1 => { let peer_msg = rx.recv(Tracked(vlog)); {
                     if let Some((content, peer_addr, client_addr, session)) = peer_msg {
-                        net_map.get(&session.client_session_id); // keep alive
+                        net_map.get(&(session.client_session_id, by_address.then_some(client_addr))); // keep alive
                         let mut dst = BytesMut::new();
                         if let Err(e) = udp__SessionCodec::encode(&codec, (content, peer_addr, session), &mut dst) {
                             ()
@@ -331,12 +340,17 @@ fn startup_udp<const N: usize>(config: &ServerConfig<SslConfig>, user_manager: &
                             let mut src = BytesMut::from(&buf[..len]);
                             match udp__SessionCodec::<N>::decode(&codec, &mut src) {
                                 Ok(Some((content, peer_addr, session))) => {
-                                    let key = session.client_session_id;
+                                    let key = (session.client_session_id, by_address.then_some(client_addr));
                                     // an association whose task has ended (unresolvable or unreachable target) is replaced, never fatal for the service
                                     if net_map.get(&key).is_some_and(|assoc| assoc.task.is_finished()) {
                                         net_map.remove(&key);
                                     }
                                     if let Some(assoc) = net_map.get_mut(&key) {
+                                        proof {
+                                            //#C02
+                                            // with a cipher that carries no session id, the association a datagram joins is the one opened from this very client address: its replies go back there
+                                            assert(by_address ==> assoc.addr() == client_addr);
+                                        }
                                         if let Err(e) = assoc.try_send((content, peer_addr, session), Tracked(vlog)) {
                                             /*R2*/
                                             net_map.remove(&key);
